@@ -55,7 +55,14 @@ def run(ctx):
     for name, t in traces:
         events = vf.read_ndjson(t)
         if any(e["ev"] == "trace.truncated" for e in events):
-            ctx.report("the crawl did not stop: trace cut at the safety limit", replay_src=None, key="runaway crawl")
+            # keep the head of the trace (it shows which bound is being ignored) and let the monitor say which one
+            head = os.path.join(ctx.scratch, "head-" + name)
+            vf.write_ndjson(head, [e for e in events[:1500] if e["ev"] != "trace.truncated"])
+            ctx.report("the crawl did not stop: trace cut at the safety limit [%s]" % name, replay_src=head, tag="runaway", key="runaway crawl")
+            mon = ctx.validate("C06_Mon", "C06_mon.cfg", head, name="C06_Mon-head-" + name, timeout=1200, heap="8g")
+            for v in mon["viols"]:
+                e = events[v["l"] - 1]
+                ctx.report("%s [%s] %s" % (v["why"], name, {k: e[k] for k in e if k not in ("seq", "us", "tree")}), replay_src=head, tag="run", key=v["why"])
             continue
         nev += len(events)
         nreq += sum(1 for e in events if e["ev"] == "req")
